@@ -288,7 +288,7 @@ func execBuild(c *Case, o *Outcome) {
 	}
 	opts := api.BuildOptions{
 		LogLevel: api.LogLevelSilent, LogLimit: 20, AbsWorkingDir: dir, EntryPoints: entries, Bundle: true, Write: false,
-		Outdir: filepath.Join(dir, "out"),
+		Outdir:    filepath.Join(dir, "out"),
 		Sourcemap: sourcemapOf(p.SourceMap), Target: targetOf(p.Target), Engines: enginesOf(p.Engine),
 		Platform: platformOf(p.Platform), Format: formatOf(p.Format), GlobalName: p.GlobalName,
 		MangleProps: p.MangleProps, Drop: drops(p.Drop),
